@@ -112,20 +112,35 @@ func (e *Engine) doSend(c *ChanObj, v Value, pos string) {
 	}
 }
 
+// runHooks lets the environment act while the goroutine is blocked. A hook that
+// cannot (or will not) do anything calls vDecline(). The block is genuine
+// (status BLOCKED) when every hook declined in a round; hooks that act without
+// unblocking get further rounds, up to a horizon.
 func (e *Engine) runHooks(chs []*ChanObj, ready func() bool) bool {
-	for _, c := range chs {
-		if c == nil {
-			continue
-		}
-		for _, h := range c.onBlock {
-			e.tracef("block-hook %s", c)
-			e.callValue(h)
-			if ready() {
-				return true
+	for round := 0; round < 6; round++ {
+		acted := false
+		for _, c := range chs {
+			if c == nil {
+				continue
+			}
+			for _, h := range c.onBlock {
+				e.tracef("block-hook %s", c)
+				e.declined = false
+				e.callValue(h)
+				if !e.declined {
+					acted = true
+				}
+				if ready() {
+					return true
+				}
 			}
 		}
+		if !acted {
+			return ready()
+		}
 	}
-	return ready()
+	e.abort("ENV-HORIZON", "environment acted repeatedly without unblocking the goroutine")
+	return false
 }
 
 func (e *Engine) tickAvailable(c *ChanObj) bool {
